@@ -228,6 +228,10 @@ def run(ctx, chk, tier):
     # "computed for the same quantity, under the same labels"
     from . import c13
     c13.run(ctx, chk, tier)
+    # the cells of the frame are ConfusionMatrix metrics of the per-group matrices: "the metric of group g" is the tabled definition of that
+    # metric (numerator, denominator, NaN exactly where the denominator is 0) - the metric tables of C04
+    from . import c04
+    c04.run(ctx, chk, tier)
     chk.floor("R18.2", 12, "12 configuration combinations")
     chk.floor("R18.3", 6, "6 bootstrap combinations")
     chk.floor("R18.8", 1, "the BiasFrame methods")
